@@ -223,6 +223,64 @@ def loop_effects(body, facts, loop_blocks, next_bb):
     return eff
 
 
+# keys that identify an element of a Vec uniquely although they do not use all of its fields (reason each)
+UNIQUE_KEYS = [
+    ('lrtable::statetable::StateTable::new', '(cfgrammar::idxnewtype::TIdx<StorageT>, cfgrammar::idxnewtype::PIdx<StorageT>, lrtable::StIdx<StorageT>)', {0, 2},
+     'shift/reduce conflicts: at most one per (state, token) cell, so (token, state) identifies the entry'),
+    ('lrlex::ctbuilder::CTLexerBuilder::build', '(&alloc::string::String, &<LexerTypesT as lrpar::lex_api::LexerTypes>::StorageT)', {0},
+     'the (key, value) pairs of ONE map: the key alone identifies the pair'),
+    ('lrtable::stategraph::StateGraph::pp', '(&cfgrammar::Symbol<StorageT>, &lrtable::StIdx<StorageT>)', {1},
+     'the edges of one state: different symbols lead to different states (every item of a state has the edge\'s symbol before its dot)'),
+]
+
+
+def sort_is_canonical(body, t):
+    """does this sort call put the Vec into an order that does not depend on the order it had before?  A full `sort` does (equal
+    elements are identical); a `sort_by_key` only if its key tells all elements apart: it reads every field of the element
+    tuple, or a set of fields declared unique in UNIQUE_KEYS; comparator sorts are not recognised"""
+    nm = cname(t) or ''
+    if nm in ('sort', 'sort_unstable'):
+        return True
+    if not nm.endswith('by_key'):
+        return False
+    c = callee_of(t)
+    args = c.get('args') or []
+    clo = [a for a in args if a.startswith('{closure@')]
+    if not clo or not args:
+        return False
+    elem = args[0]
+    facts = body.facts if hasattr(body, 'facts') else None
+    cbs = [cb for cb in (SORT_FACTS.closures_of(body) if SORT_FACTS else []) if len(cb.locals) > 1 and clo[0] in cb.locals[1]['ty']]
+    if len(cbs) != 1:
+        return False
+    cb = cbs[0]
+    read = set()
+    whole = False
+    for blk in cb.blocks:
+        for st in blk['stmts']:
+            if st['k'] != 'assign':
+                continue
+            for o in rv_operands(st['rv']) + ([{'copy': st['rv']['ref']}] if 'ref' in st['rv'] else []):
+                pl = op_place(o)
+                if pl and pl['l'] == 2:
+                    fs = [q['f'] for q in pl['p'] if isinstance(q, dict) and 'f' in q]
+                    if fs:
+                        read.add(fs[0])
+                    else:
+                        whole = True
+    arity = len(top_level_args('X<' + elem.strip()[1:-1] + '>')) if elem.startswith('(') else 1
+    if whole or len(read) >= arity:
+        return True
+    fn = strip_generics(body.root_parent or body.path)
+    for f, el, need, reason in UNIQUE_KEYS:
+        if f == fn and elem.replace(' ', '') == el.replace(' ', '') and need <= read:
+            return True
+    return False
+
+
+SORT_FACTS = None
+
+
 def sorted_after_loop(body, vec_local, loop_blocks):
     """the Vec is put into a canonical order once the loop is over: a sort* call on it outside the loop that every
     later (non-loop) use is dominated by, and that itself is reached on every way out of the loop"""
@@ -238,7 +296,7 @@ def sorted_after_loop(body, vec_local, loop_blocks):
                 uses.append((b, t))
                 break
     outer = [(b, t) for b, t in uses if b not in loop_blocks]
-    sorts = [b for b, t in outer if (cname(t) or '').startswith('sort')]
+    sorts = [b for b, t in outer if (cname(t) or '').startswith('sort') and sort_is_canonical(body, t)]
     if not sorts:
         return False
     exits = {s for b in loop_blocks for s in body.succs(b) if s not in loop_blocks}
@@ -277,6 +335,8 @@ def term_mentions_local(rv, l):
 
 def classify(body, facts, bb, t, st):
     """returns (verdict 'auto'|'sensitive', description, details)"""
+    global SORT_FACTS
+    SORT_FACTS = facts
     dest = t['dest']['l']
     c = callee_of(t)
     if c['name'] == 'retain':
@@ -373,7 +433,7 @@ def sorted_before_use(body, vec_local, def_bb):
                 uses.append((b, t))
                 break
     # also moves into aggregates/returns count as uses; keep it simple: look at call uses
-    sorts = [b for b, t in uses if (cname(t) or '').startswith('sort')]
+    sorts = [b for b, t in uses if (cname(t) or '').startswith('sort') and sort_is_canonical(body, t)]
     if not sorts:
         return False
     for b, t in uses:
